@@ -71,6 +71,10 @@ def run(rep, tier, seed):
     n = 150 if tier == "quick" else 2000
     cases = lf.bnf_cases(rng, n, tts=("LALR", "LALR_PAGER"), algo="LR", max_len=4, n_sent=10, n_mut=6,
                          partial=("0", "1"), ws=("none", "mixed"), annot=True, extra_settings=settings_choice)
+    cases += lf.bnf_cases(rng, max(10, n // 10), tts=("LALR_PAGER",), algo="LR", max_len=3, n_sent=8, n_mut=4,
+                          partial=("0", "1"), ws=("mixed", "layout"), gen_kw=dict(layout="comments"))
+    cases += lf.bnf_cases(rng, max(10, n // 10), tts=("LALR_PAGER",), algo="LR", max_len=3, n_sent=8, n_mut=4,
+                          partial=("0", "1"), ws=("mixed", "layout"), gen_kw=dict(layout="nested"))
     lf.run_cases(cases, extra_requests=lambda c: ["cert structural 0 0"])
     check(rep, cases, proofs_ok)
 
